@@ -162,6 +162,13 @@ def shard(arg):
                 rec.classes["bban-with-congruent-alias"] += 1
             rec.nt.add(hash((cc, b)))
             rec.sample("bban-alias-adjacent", {"cc": cc, "bban": b, "canonical": want, "congruent_alias_exists": alias})
+    # BBANs that are themselves valid IBANs of another country (an input that is a valid instance of the neighbouring type)
+    from ..gens import nested_iban_bbans
+    for s_, b in nested_iban_bbans(g, cc, rng, per=2 if tier == "quick" else 10):
+        check_bban(rec, cc, b, f"nested-iban:{s_}")
+        rec.evals += 100
+        rec.classes["bban-is-valid-iban-of-other-country"] += 1
+        rec.nt.add(hash((cc, b)))
     rec.exhaustive.append("all 100 check-digit pairs for every generated (country, BBAN)")
     # BBANs whose letter fields spell dictionary words
     from .. import dims
@@ -284,4 +291,4 @@ def run(ctx):
     size_extremes(ctx.rec, ctx.seed, ctx.tier)
     from ._configs import stage as _config_stage
     _config_stage(ctx, ['assemble'])
-    ctx.require_classes("bban-object-own", "bban-object-foreign", "bban-size-extreme", "bban", "bban-alias-adjacent", "bban-with-congruent-alias", "bban-zero-run", "bban-token", "bban-block-collision")
+    ctx.require_classes("bban-is-valid-iban-of-other-country", "bban-object-own", "bban-object-foreign", "bban-size-extreme", "bban", "bban-alias-adjacent", "bban-with-congruent-alias", "bban-zero-run", "bban-token", "bban-block-collision")
